@@ -44,11 +44,15 @@ Record store := {
 Definition upd {A} (g : nat -> A) (k : nat) (v : A) : nat -> A :=
   fun x => if Nat.eqb x k then v else g x.
 
-Fixpoint write_outs (sl : nat -> option term) (tys : list nat) (vs : list term) : nat -> option term :=
-  match tys, vs with
-  | t :: tr, v :: vr => write_outs (upd sl t (Some v)) tr vr
-  | _, _ => sl
+Fixpoint assoc (t : nat) (l : list (nat * term)) : option term :=
+  match l with
+  | [] => None
+  | (a, v) :: r => if Nat.eqb a t then Some v else assoc t r
   end.
+
+(* "v1, v2, err = f(...)": the output variables receive the values, the rest is untouched *)
+Definition write_outs (sl : nat -> option term) (tys : list nat) (vs : list term) : nat -> option term :=
+  fun t => match assoc t (combine tys vs) with Some v => Some v | None => sl t end.
 
 Definition store0 (f : fflow) : store :=
   {| slot := fun t => if existsb (Nat.eqb t) (gparams f) then Some (TmParam t) else None;
@@ -74,56 +78,75 @@ Section Op.
     map (fun i => TmFall k i) (seq 0 (length (kouts (taskof f k)))).
   Definition zero_vals (k : nat) : list term := map (fun _ => TmZero) (kouts (taskof f k)).
 
-  (* the run closure of a job *)
-  Definition run_job (st : store) (x : fid) : store * list call * jres :=
+  (* what the run closure of a job does, as a function of the variables it reads *)
+  Record jeff := {
+    je_outs : option (list term);      (* values assigned to the task's output variables *)
+    je_flag : bool; je_panic : bool;   (* predicate job: p = true / pPanicRecover set *)
+    je_calls : list call;              (* user functions called *)
+    je_res : jres                      (* what the job returns to the scheduler *)
+  }.
+
+  Definition job_sem (st : store) (x : fid) : jeff :=
     match x with
     | FP k =>
         match kpred (taskof f k) with
-        | None => (st, [], JOk)
+        | None => {| je_outs := None; je_flag := false; je_panic := false; je_calls := []; je_res := JOk |}
         | Some pins =>
             let args := map (slot st) pins in
-            match sc_pred sc k with
-            | PTRUE => ({| slot := slot st; pflag := upd (pflag st) k true; ppanic := ppanic st |}, [(true, k, args)], JOk)
-            | PFALSE => (st, [(true, k, args)], JOk)
-            | PPANIC => ({| slot := slot st; pflag := pflag st; ppanic := upd (ppanic st) k true |}, [(true, k, args)], JOk)
-            end
+            {| je_outs := None;
+               je_flag := match sc_pred sc k with PTRUE => true | _ => false end;
+               je_panic := match sc_pred sc k with PPANIC => true | _ => false end;
+               je_calls := [(true, k, args)]; je_res := JOk |}
         end
     | FT k =>
         let tk := taskof f k in
         let has_pred := match kpred tk with Some _ => true | None => false end in
+        let mk o c r := {| je_outs := o; je_flag := false; je_panic := false; je_calls := c; je_res := r |} in
         if has_pred && ppanic st k then
           (* "if !p { return nil }", then the deferred handler finds p..PanicRecover *)
-          if kfallback tk then (set_outs st k (fallback_vals k), [], JOk)
-          else (st, [], JFail (FPredPanic k))
+          if kfallback tk then mk (Some (fallback_vals k)) [] JOk
+          else mk None [] (JFail (FPredPanic k))
         else if has_pred && negb (pflag st k) then
           (* the outputs keep their zero values *)
-          (set_outs st k (zero_vals k), [], JOk)
+          mk (Some (zero_vals k)) [] JOk
         else
           let args := map (slot st) (kins tk) in
           match sc_task sc k with
-          | OOK => (set_outs st k (map (fun i => TmOut k i (known args)) (seq 0 (length (kouts tk)))),
-                    [(false, k, args)], JOk)
-          | OERR => if kfallback tk then (set_outs st k (fallback_vals k), [(false, k, args)], JOk)
-                    else (st, [(false, k, args)], JFail (FErr k))
-          | OPANIC => if kfallback tk then (set_outs st k (fallback_vals k), [(false, k, args)], JOk)
-                      else (st, [(false, k, args)], JFail (FPanic k))
+          | OOK => mk (Some (map (fun i => TmOut k i (known args)) (seq 0 (length (kouts tk))))) [(false, k, args)] JOk
+          | OERR => if kfallback tk then mk (Some (fallback_vals k)) [(false, k, args)] JOk
+                    else mk None [(false, k, args)] (JFail (FErr k))
+          | OPANIC => if kfallback tk then mk (Some (fallback_vals k)) [(false, k, args)] JOk
+                      else mk None [(false, k, args)] (JFail (FPanic k))
           end
     end.
 
-  (* the state of an execution: variables, calls made, jobs that returned nil, failures *)
-  Record exec := { xstore : store; xcalls : list call; xok : list fid; xfail : list (fid * ferr) }.
+  Definition apply_eff (st : store) (x : fid) (ef : jeff) : store :=
+    match x with
+    | FT k => match je_outs ef with Some vs => set_outs st k vs | None => st end
+    | FP k => {| slot := slot st;
+                 pflag := if je_flag ef then upd (pflag st) k true else pflag st;
+                 ppanic := if je_panic ef then upd (ppanic st) k true else ppanic st |}
+    end.
 
-  Definition exec0 : exec := {| xstore := store0 f; xcalls := []; xok := []; xfail := [] |}.
+  Definition is_ok (r : jres) : bool := match r with JOk => true | JFail _ => false end.
+
+  (* the state of an execution: variables, what each job that ran did, jobs that returned nil *)
+  Record exec := { xstore : store; xlog : list (fid * jeff); xok : list fid }.
+
+  Definition exec0 : exec := {| xstore := store0 f; xlog := []; xok := [] |}.
 
   Definition step (e : exec) (x : fid) : exec :=
-    match run_job (xstore e) x with
-    | (st, cs, JOk) => {| xstore := st; xcalls := xcalls e ++ cs; xok := xok e ++ [x]; xfail := xfail e |}
-    | (st, cs, JFail er) => {| xstore := st; xcalls := xcalls e ++ cs; xok := xok e; xfail := xfail e ++ [(x, er)] |}
-    end.
+    let ef := job_sem (xstore e) x in
+    {| xstore := apply_eff (xstore e) x ef;
+       xlog := xlog e ++ [(x, ef)];
+       xok := if is_ok (je_res ef) then xok e ++ [x] else xok e |}.
 
   Definition run (sch : list fid) : exec := fold_left step sch exec0.
 
-  Definition ran (e : exec) : list fid := xok e ++ map fst (xfail e).
+  Definition ran (e : exec) : list fid := map fst (xlog e).
+  Definition xcalls (e : exec) : list call := flat_map (fun p => je_calls (snd p)) (xlog e).
+  Definition xfail (e : exec) : list ferr :=
+    flat_map (fun p => match je_res (snd p) with JFail er => [er] | JOk => [] end) (xlog e).
 
   (* the scheduler runs a job only once, only after every dependency returned nil
      (Layer 0: C01_order_once, C07_downstream) *)
@@ -139,7 +162,7 @@ Section Op.
   Definition valid (sch : list fid) : bool := valid_from exec0 sch.
 
   (* what the directive returns and leaves in the Results targets *)
-  Definition flow_error (e : exec) : list ferr := map snd (xfail e).
+  Definition flow_error (e : exec) : list ferr := xfail e.
   Definition results (e : exec) : option (list (option term)) :=
     match xfail e with [] => Some (map (slot (xstore e)) (gresults f)) | _ => None end.
 
